@@ -14,6 +14,7 @@ import (
 	"os"
 	"os/exec"
 	"path/filepath"
+	"runtime/debug"
 	"sort"
 	"strconv"
 	"strings"
@@ -77,6 +78,9 @@ type childResult struct {
 
 func child() {
 	gologging.SetLevel(gologging.CRITICAL, "plz")
+	if v, err := strconv.Atoi(os.Getenv("C19_MAXSTACK")); err == nil && v > 0 {
+		debug.SetMaxStack(v)
+	}
 	r := bufio.NewReaderSize(os.Stdin, 1<<20)
 	w := bufio.NewWriter(os.Stdout)
 	for {
@@ -109,11 +113,12 @@ type isoResult struct {
 }
 
 // isolated parses every input in a child process (restarted after a crash).
-func isolated(ins []Input, perInput time.Duration) []isoResult {
+func isolated(ins []Input, perInput time.Duration, maxStack int) []isoResult {
 	out := make([]isoResult, len(ins))
 	i := 0
 	for i < len(ins) {
 		cmd := exec.Command(os.Args[0], "c19-child")
+		cmd.Env = append(os.Environ(), "C19_MAXSTACK="+strconv.Itoa(maxStack))
 		stdin, _ := cmd.StdinPipe()
 		stdout, _ := cmd.StdoutPipe()
 		var stderr bytes.Buffer
@@ -692,6 +697,7 @@ func main() {
 			"model cases compare the whole token stream (type, value, position) or the lexer error position, and the parse result kind, statement count or error position. " +
 			"distinct = distinct byte strings; non-trivial = at least 3 tokens or a parse error")
 
+		tStart := time.Now()
 		repo := os.Getenv("VERIF_REPO")
 		if repo == "" {
 			repo = "/repo"
@@ -745,7 +751,7 @@ func main() {
 		var replay Input
 		if c.ReadReplay(&replay) {
 			if replay.Count > 100000 {
-				res := isolated([]Input{replay}, 10*time.Minute)
+				res := isolated([]Input{replay}, 10*time.Minute, 0)
 				c.Oracle()
 				c.Eval(replay, "replay", true)
 				if res[0].Crash != "" {
@@ -811,6 +817,7 @@ func main() {
 			}
 		}
 
+		c.Note("phase a-c done after %.1fs", time.Since(tStart).Seconds())
 		// (e) depth / repetition, in-process (10^3 - 10^4); a model case only for a shallow instance
 		type shape struct{ prefix, unit, suffix string }
 		shapes := []shape{
@@ -823,7 +830,7 @@ func main() {
 		}
 		for _, sh := range shapes {
 			eval(rep("repeat-small", sh.prefix, sh.unit, 7, strings.Replace(sh.suffix, strings.Repeat(")", 3000), strings.Repeat(")", 7), 1)), true)
-			for _, n := range []int{1000, c.Scale(3000, 10000)} {
+			for _, n := range deepCounts(c.Thor) {
 				eval(rep("repeat-deep", sh.prefix, sh.unit, n, sh.suffix), false)
 			}
 		}
@@ -837,27 +844,39 @@ func main() {
 			eval(mk("nested-blocks", []byte(b.String())), n < 10)
 		}
 
+		c.Note("phase e (in-process depth) done after %.1fs", time.Since(tStart).Seconds())
 		// (e') the same shapes far deeper, in a child process: a fatal error there kills only the child
+		// Quick tier: the child's stack limit is lowered to 64 MB (debug.SetMaxStack) so that one crash per class
+		// costs a second instead of a minute; the thorough tier uses the runtime's default limit of 1 GB.
+		maxStack := 64 << 20
 		big := []Input{
-			rep("isolated-deep", "x = ", "(", 1200000, "\n"),
-			rep("isolated-deep", "", "\r", 12000000, "x = 1\n"),
+			rep("isolated-deep", "x = ", "(", 200000, "\n"),
+			rep("isolated-deep", "", "\r", 1000000, "x = 1\n"),
 		}
 		if c.Thor {
-			big = append(big,
+			maxStack = 0
+			big = []Input{
+				rep("isolated-deep", "x = ", "(", 1200000, "\n"),
+				rep("isolated-deep", "", "\r", 12000000, "x = 1\n"),
 				rep("isolated-deep", "x = ", "[", 1200000, "\n"),
 				rep("isolated-deep", "x = a", ".a", 12000000, "\n"),
 				rep("isolated-deep", "x = 1", " if 1 else 1", 12000000, "\n"),
 				rep("isolated-deep", "", "\n", 12000000, "x = 1\n"),
 				rep("isolated-deep", "", "#\n", 12000000, "x = 1\n"),
 				rep("isolated-deep", "x = (", "\n", 12000000, "1)\n"),
-			)
+			}
 		}
-		// and moderately deep ones that must be fine
-		big = append(big, rep("isolated-deep", "x = ", "(", 100000, "\n"), rep("isolated-deep", "", "\n", 300000, "x = 1\n"))
-		for k, res := range isolated(big, 15*time.Minute) {
+		c.Note("isolated child: stack limit %d bytes (0 = Go default, 1 GB)", maxStack)
+		results := isolated(big, 15*time.Minute, maxStack)
+		// and moderately deep ones that must be fine with the default limit
+		fine := []Input{rep("isolated-deep", "x = ", "(", 50000, "\n"), rep("isolated-deep", "", "\n", 100000, "x = 1\n")}
+		big = append(big, fine...)
+		results = append(results, isolated(fine, 15*time.Minute, 0)...)
+		for k, res := range results {
 			in := big[k]
 			c.Oracle()
 			c.Eval(map[string]any{"input": in, "crash": res.Crash, "ms": res.Res.Ms}, fmt.Sprint("big", k), true)
+			c.Note("isolated %q x %d: crash=%q after %.1fs total", in.Unit, in.Count, res.Crash, time.Since(tStart).Seconds())
 			c.Hist("generator", in.Gen)
 			c.Hist("size", ">=16k")
 			switch {
@@ -880,6 +899,13 @@ func main() {
 			}
 		}
 	})
+}
+
+func deepCounts(thorough bool) []int {
+	if thorough {
+		return []int{1000, 10000}
+	}
+	return []int{2000}
 }
 
 func firstLine(s string) string {
